@@ -280,6 +280,7 @@ fn lattices(rep: &mut Report) {
     for &a in &tl {
         note(check_accessors(a), &mut first);
         n += 1;
+        crate::engine::PROGRESS.fetch_add(1, std::sync::atomic::Ordering::Relaxed);
         for &d in &dl {
             match check_pair(a, d) {
                 Ok(true) => {
@@ -289,15 +290,18 @@ fn lattices(rep: &mut Report) {
                 Err(e) => note(Err(e), &mut first),
             }
             n += 1;
+            crate::engine::PROGRESS.fetch_add(1, std::sync::atomic::Ordering::Relaxed);
         }
         for &b in &tl {
             note(check_time_pair(a, b), &mut first);
             n += 1;
+            crate::engine::PROGRESS.fetch_add(1, std::sync::atomic::Ordering::Relaxed);
         }
     }
     for i in i8::MIN..=i8::MAX {
         note(check_log_interval(i), &mut first);
         n += 1;
+        crate::engine::PROGRESS.fetch_add(1, std::sync::atomic::Ordering::Relaxed);
     }
     // TimeInterval lattice
     let mut til: Vec<i64> = vec![0, 1, -1, i64::MAX, i64::MIN, i64::MAX - 1, i64::MIN + 1];
@@ -310,11 +314,13 @@ fn lattices(rep: &mut Report) {
     for b in til {
         note(check_time_interval(b), &mut first);
         n += 1;
+        crate::engine::PROGRESS.fetch_add(1, std::sync::atomic::Ordering::Relaxed);
     }
     for &d in &dl {
         if d.abs() < (1i128 << (47 + 32)) {
             note(check_dur_floor(d), &mut first);
             n += 1;
+            crate::engine::PROGRESS.fetch_add(1, std::sync::atomic::Ordering::Relaxed);
         }
     }
     rep.evaluations += n;
